@@ -68,7 +68,7 @@ Proof.
 Qed.
 
 (* ---------- a MIXED chain: part 1 ends with a cross-reference STREAM (object 9), part 2 with a table whose Prev names it ---------- *)
-From LV Require Proofs.LoadsMultiMixed Proofs.LoadsMultiMixedFull Proofs.LoadsMultiXSec.
+From LV Require Proofs.LoadsMultiMixed Proofs.LoadsMultiMixedFull Proofs.LoadsMultiXSec Proofs.LoadsFilterProofs.
 
 Definition ex_xs_m : xsstyle :=
   {| xs_id := 9; xs_w := (0%nat, 1%nat, 0%nat); xs_secs := [(3, 1); (7, 1); (9, 1)]; xs_omit_index := false;
@@ -95,13 +95,13 @@ Qed.
 
 Theorem example_loads_multi_mixed :
   exists file, ref_write_multi ex_fstyle ex_parts_x ex_adoc = Some file /\
-               LoadsMultiMixedFull.multi_dom_mixed ex_fstyle ex_parts_x ex_adoc file.
+               LoadsMultiMixedFull.multi_dom_mixed LoadsFilterProofs.decompress_ref LoadsFilterProofs.can_ref ex_fstyle ex_parts_x ex_adoc file.
 Proof.
   eexists. split; [vm_compute; reflexivity|].
   assert (Hr : real_wf (bs "2.5")) by (exists false, (bs "2"), (bs "5"); repeat split; try reflexivity; discriminate).
   split; [reflexivity|]. split.
   { cbn [LoadsMultiMixed.parts_ok ex_parts_x]. split; [|split; [|exact I]].
-    - unfold LoadsMultiMixed.part_ok. cbn [mp_xref]. split; [reflexivity|]. split; [left; reflexivity|].
+    - unfold LoadsMultiMixed.part_ok. cbn [mp_xref]. split; [left; reflexivity|]. split; [left; reflexivity|].
       match goal with |- spell_wf (ODict ?d) _ /\ _ =>
         let v := eval vm_compute in d in assert (Hd : d = v) by (vm_compute; reflexivity); rewrite Hd end.
       split.
@@ -122,6 +122,59 @@ Proof.
   split; [vm_compute; discriminate|]. split; [vm_compute; discriminate|]. split; [vm_compute; reflexivity|].
   intros lastp xs Hl Hxs. cbn in Hl. inversion Hl; subst lastp. clear Hl.
   assert (Hall : forallb (fun xs => (9 + length (LoadsTableProofs.sx_mid ECRLF 1 xs 2 ECR) <=? 25)%nat) (range_N 0 600) = true)
+    by (vm_compute; reflexivity).
+  rewrite forallb_forall in Hall. apply Nat.leb_le. apply (Hall xs). apply LoadsTableProofs.range_N_In.
+  match type of Hxs with _ <= ?b => let v := eval vm_compute in b in change b with v in Hxs end. lia.
+Qed.
+
+(* ---------- the same chain with a FILTER CHAIN on the cross-reference stream: ASCII85 around Flate with a PNG predictor ---------- *)
+Definition ex_xs_f : xsstyle :=
+  {| xs_id := 9; xs_w := (0%nat, 1%nat, 0%nat); xs_secs := [(3, 1); (7, 1); (9, 1)]; xs_omit_index := false;
+     xs_filter := SfA85Flate 3 (Some {| p_pred := 2; p_cols := 0; p_types := [4; 1; 3]; p_colors := 1; p_bpc16 := false; p_explicit := true |});
+     xs_array := true; xs_istyle := xs_istyle ex_xs_m |}.
+Definition ex_parts_f : list mpart :=
+  [{| mp_nums := [3]; mp_old := [(7, ODict [(bs "Type", OName (bs "Old"))])]; mp_relist := []; mp_order := [7; 3];
+      mp_xref := XStream ex_xs_f; mp_sx := (ELF, 0%nat, 0%nat, ELF, None) |};
+   {| mp_nums := [7]; mp_old := []; mp_relist := [3]; mp_order := [];
+      mp_xref := XTable ex_tstyle_m2; mp_sx := (ECRLF, 1%nat, 2%nat, ECR, Some ELF) |}].
+
+Theorem example_loads_multi_filtered :
+  exists file, ref_write_multi ex_fstyle ex_parts_f ex_adoc = Some file /\
+               LoadsMultiMixedFull.multi_dom_mixed LoadsFilterProofs.decompress_ref LoadsFilterProofs.can_ref ex_fstyle ex_parts_f ex_adoc file.
+Proof.
+  eexists. split; [vm_compute; reflexivity|].
+  assert (Hr : real_wf (bs "2.5")) by (exists false, (bs "2"), (bs "5"); repeat split; try reflexivity; discriminate).
+  split; [reflexivity|]. split.
+  { cbn [LoadsMultiMixed.parts_ok ex_parts_f]. split; [|split; [|exact I]].
+    - unfold LoadsMultiMixed.part_ok. cbn [mp_xref]. split.
+      { right. split; [reflexivity|]. split; [reflexivity|]. split; [vm_compute; discriminate|reflexivity]. }
+      split; [left; reflexivity|].
+      match goal with |- spell_wf (ODict ?d) _ /\ _ =>
+        let v := eval vm_compute in d in assert (Hd : d = v) by (vm_compute; reflexivity); rewrite Hd end.
+      split.
+      + cbn.
+        repeat match goal with
+               | |- _ /\ _ => split
+               | |- NoDup _ => repeat (constructor; [cbn; intuition discriminate|]); constructor
+               | |- True => exact I
+               | |- _ = true => reflexivity
+               | |- _ <= _ => unfold u32_max, u16_max; lia
+               end.
+      + vm_compute. lia.
+    - unfold LoadsMultiMixed.part_ok. cbn [mp_xref]. apply ex_trailer_dom_x. reflexivity. }
+  split.
+  { unfold LoadsTableProofs.tops. cbn [a_objs ex_adoc map fst snd].
+    constructor; [|constructor; [|constructor]].
+    + cbn. split; [lia|]. split; [unfold u16_max; lia|]. split; [|lia]. split.
+      * constructor; [intros [H|[]]; discriminate|]. constructor; [intros []|constructor].
+      * split; [exact I|]. split; [exact Hr|exact I].
+    + cbn. split; [lia|]. split; [unfold u16_max; lia|]. split.
+      * split; [constructor; [intros []|constructor]|]. split; [reflexivity|exact I].
+      * split; [lia|]. split; reflexivity. }
+  split; [vm_compute; discriminate|]. split; [repeat split; reflexivity|].
+  split; [vm_compute; discriminate|]. split; [vm_compute; discriminate|]. split; [vm_compute; reflexivity|].
+  intros lastp xs Hl Hxs. cbn in Hl. inversion Hl; subst lastp. clear Hl.
+  assert (Hall : forallb (fun xs => (9 + length (LoadsTableProofs.sx_mid ECRLF 1 xs 2 ECR) <=? 25)%nat) (range_N 0 900) = true)
     by (vm_compute; reflexivity).
   rewrite forallb_forall in Hall. apply Nat.leb_le. apply (Hall xs). apply LoadsTableProofs.range_N_In.
   match type of Hxs with _ <= ?b => let v := eval vm_compute in b in change b with v in Hxs end. lia.
